@@ -21,11 +21,11 @@ def scratchFields : List String := ["intersectList", "outrecList", "horzSegList"
 
 theorem fields_classified :
     ∀ f ∈ engineFields, f ∈ inputFields ++ optionFields ++ perCallFields ++ scratchFields := by
-  sorry
+  decide
 
 theorem classification_complete :
     ∀ f ∈ inputFields ++ optionFields ++ perCallFields ++ scratchFields, f ∈ engineFields := by
-  sorry
+  decide
 
 def assignedIn (name : String) : List String :=
   ((fields.filter (fun f => f.struct == "clipperBase" && f.name == name)).map (·.assignedIn)).flatten
@@ -35,7 +35,7 @@ theorem scratch_reset :
     ∀ f ∈ scratchFields, (assignedIn f).any (fun fn =>
       fn == "clipperBase.reset" || fn == "clipperBase.clearSolutionOnly" || fn == "clipperBase.disposeIntersectNodes" ||
       fn == "clipperBase.deleteFromAEL") = true := by
-  sorry
+  decide
 
 /-- per-call fields are assigned on every execution path: by executeInternal / reset, and the
     tree-mode flag by each of the five Execute entry points -/
@@ -44,15 +44,15 @@ theorem per_call_assigned :
     (∀ f ∈ ["succeeded", "currentBotY", "currentLocMin"], "clipperBase.reset" ∈ assignedIn f) ∧
     (∀ e ∈ ["clipper64.ExecuteOC", "clipper64.ExecutePolyTree64", "clipperD.ExecuteOC", "clipperD.ExecutePolyTreeD", "clipperD.ExecuteWithScaleFunc"],
        e ∈ assignedIn "usingPolyTree") := by
-  sorry
+  decide
 
 /-- input fields are only written when paths are added (or the list is sorted in reset) -/
 theorem input_fields_written_only_by_add :
     ∀ f ∈ ["minimaList", "vertexList", "hasOpenPaths"], ∀ fn ∈ assignedIn f,
       fn = "clipperBase.baseAddPaths" ∨ fn = "clipperBase.addReuseableData" ∨ fn = "newClipperBase" := by
-  sorry
+  decide
 
 theorem no_package_state_written : ∀ g ∈ globals, g.writes = [] := by
-  sorry
+  decide
 
 end C12
